@@ -31,7 +31,7 @@ def plan(tier):
 
 
 def floors(tier):
-    return {"nontrivial": 60, "held:main": 150, "counter:exact_runs": 150, "counter:tau_runs": 150, "counter:rows_checked": 3000,
+    return {"nontrivial": 40, "held:main": 150, "counter:exact_runs": 150, "counter:tau_runs": 150, "counter:rows_checked": 3000,
             "counter:intervals_checked": 3000, "counter:empty_paths": 10, "counter:states_only_runs": 80, "counter:grids_past_extinction": 20,
             "class:grid-list": 30, "class:grid-tuple": 30, "class:grid-ndarray": 30, "class:grid-random": 50, "class:grid-uniform": 50,
             "class:single-event": 5, "class:single-state": 5,
@@ -93,7 +93,7 @@ def run_case(rng, idx, tier, lane, ctx):
     nontriv = False
     configs = []
     try:
-        m = S.build_sim(spec, theta, x0, grown=(rng, grow_k) if grow_k else None)
+        m = S.build_sim(spec, theta, x0, grown=(rng, grow_k) if grow_k else None, forms=rng)
     except Exception as e:
         return {"status": "violated", "sample": spec, "counters": counters,
                 "witnesses": [{"what": "model construction raised", "error": short_exc(e), "tb": tb_tail(e)}]}
